@@ -119,7 +119,7 @@ def state_memo(check):
     fs, st = memo.analyse(proj, classes)
     nrep = 0
     for f in fs:
-        if not in_scope(pid, f.func) and not (f.level == "class-level attribute" and f.func.cls is not None and any(f.func.cls is c for c in classes) and any(in_scope(pid, g) for g in f.func.cls.methods.values() if g.name != "__init__")):
+        if not in_scope(pid, f.func) and not (f.level in ("class-level attribute", "class-level container") and f.func.cls is not None and any(f.func.cls is c for c in classes) and any(in_scope(pid, g) for g in f.func.cls.methods.values() if g.name != "__init__")):
             continue
         nrep += 1
         check.violation("STATE-MEMO", f.func.qualname, f.message, "%s:%d" % (f.func.module.relpath, f.line), key=f.key)
@@ -343,6 +343,13 @@ def alias_rules(check):
                         bad += 1
                         check.violation("VAR-PURE", f.qualname, "evaluating this variable changes its argument in place (`%s`, line %d%s): the field's own data are altered, every later evaluation is wrong"
                                         % (text, ln, (", through %s" % via) if via else ""), "%s:%d" % (f.module.relpath, ln), key="mutates-arg")
+                # ... and hands back a value of its own: not storage kept on the model (a work array written with out=),
+                # which the next evaluation -- of another state, by the same model object -- overwrites
+                kept = sorted(o for o in (an.summ[f.qualname].ret.objs | an.summ[f.qualname].ret.elts) if o.startswith("S:") and o != "S:")
+                if kept and f.name not in ("cons2prim", "prim2cons"):
+                    bad += 1
+                    check.violation("VAR-PURE", f.qualname, "the value returned IS the array stored as self.%s (written with out= / kept on the model): a result the caller still holds (the initial state's values, one entry of a list of snapshots) silently takes the values of the next evaluation by the same model" % kept[0][2:],
+                                    f.loc(), key="returns-stored")
         if not bad:
             check.ok("VAR-PURE", "%d conversion / output-variable functions" % n, "none changes (an element of) its argument in place, directly or through the functions it calls; built-in example: 1 in-place change through a returned alias reported, its copying twin silent")
     if pid in ("C15", "C16"):
